@@ -34,9 +34,12 @@ def run(ctx):
         for _ in range(8):
             start = [min(round(rng.uniform(0, e), rng.choice([1, 2, 5])), e) for e in ext]
             prog.append(["move_sat", ext, start, [rng.choice([-1, 0, 1]) for _ in range(3)]])
+            # the same start in a wrapping world of these extents, moved by ordinary decimal amounts (several laps too)
+            delta = [rng.choice([0.1, 0.2, -0.3, 1.7, -2.45, round(rng.uniform(-3 * e, 3 * e), 2)]) for e in ext]
+            prog.append(["move_wrap", ext, start, delta])
         progs.append(prog)
     _world.validate_programs(ctx, progs, "far out-of-range relative moves in continuous worlds with non-dyadic float extents and positions: "
-                                         "saturation must land exactly on the edge", tamper=False)
+                                         "saturation must land exactly on the edge; in wrapping worlds exactly at (old + delta) modulo extent", tamper=False)
     for kinds, label in ((("space",), "continuous worlds"), (("grid",), "generic grid worlds"), (("line", "grid2d"), "line and 2-D grid worlds")):
         runs = _world.random_runs(ctx, n, kinds=kinds, mods="clean", length=60, weights=W, n_models=1)
         _world.validate_runs(ctx, runs, f"random add/move/move_to/remove histories, non-cubic extents incl. 0, wrap on/off, {label}")
